@@ -317,6 +317,90 @@ def covFromDatasetList (m : Method) (dss : List (List (Obs α))) (d : DofArg α)
 
 end dataset
 
+/-! ### Sessions on one `Dataset` object (round 4)
+
+  A dataset object lives on between estimator calls and is changed in place in between:
+  `Dataset.sort_by(by)` (stable argsort of one observation descriptor, applied to the
+  measurements and to *every* descriptor), a direct store into `obs_descriptors[d][i]` or
+  into `measurements[i, j]`.  The property speaks about *the dataset*, i.e. about the content
+  the object has at the moment of the call: the model of a session therefore threads the
+  content through the steps and hands every estimator call the current content — there is no
+  other state (no memo of an earlier row grouping).  An observation carries the values of all
+  its descriptors (`List Nat`, descriptor `d` = position `d`) and its row. -/
+
+section session
+variable {α : Type}
+
+/-- one observation: the values of all observation descriptors, and the measurement row -/
+abbrev SObs (α : Type) := List Nat × Row α
+
+/-- value of descriptor `d` of an observation -/
+def descOf (d : Nat) (o : SObs α) : Nat := o.1[d]?.getD 0
+
+/-- what an estimator called with `obs_desc = d` reads from the object -/
+def view (d : Nat) (s : List (SObs α)) : List (Obs α) := s.map (fun o => (descOf d o, o.2))
+
+/-- `Dataset.sort_by(d)`: `np.argsort(desc, kind='stable')` applied to the measurements and to
+    every descriptor (a stable merge sort on the observations) -/
+def sortBy (d : Nat) (s : List (SObs α)) : List (SObs α) :=
+  s.mergeSort (fun a b => decide (descOf d a ≤ descOf d b))
+
+/-- `ds.obs_descriptors[d][i] = v` -/
+def storeDesc (d i v : Nat) (s : List (SObs α)) : List (SObs α) :=
+  s.modify i (fun o => (o.1.set d v, o.2))
+
+/-- `ds.measurements[i, j] = x` -/
+def storeVal (i j : Nat) (x : α) (s : List (SObs α)) : List (SObs α) :=
+  s.modify i (fun o => (o.1, fun k => if k = j then x else o.2 k))
+
+/-- which dataset estimator -/
+inductive Est where
+  | measurements | unbalanced
+  deriving Repr, DecidableEq, Inhabited
+
+/-- one step of a session on a dataset object -/
+inductive Step (α : Type) where
+  | sort (d : Nat)
+  | setDesc (d i v : Nat)
+  | setVal (i j : Nat) (x : α)
+  | est (e : Est) (m : Method) (d : Nat) (dof : Option α)
+
+/-- content of the object after one step (an estimator call leaves it as it is) -/
+def Step.apply : Step α → List (SObs α) → List (SObs α)
+  | .sort d, s => sortBy d s
+  | .setDesc d i v, s => storeDesc d i v s
+  | .setVal i j x, s => storeVal i j x s
+  | .est _ _ _ _, s => s
+
+/-- content after a sequence of steps -/
+def applySteps (steps : List (Step α)) (s : List (SObs α)) : List (SObs α) :=
+  steps.foldl (fun acc st => st.apply acc) s
+
+/-- does the step store into the object? -/
+def Step.mutates : Step α → Bool
+  | .est _ _ _ _ => false
+  | _ => true
+
+variable [Add α] [Sub α] [Mul α] [Div α] [Neg α] [Zero α] [One α] [NatCast α]
+variable [LT α] [DecidableLT α] [LE α] [DecidableLE α] [Max α] [Min α] [HasSqrt α]
+
+/-- an estimator call on the object with content `s`; `none` = `ValueError` -/
+def estimateOn (e : Est) (m : Method) (d : Nat) (dof : Option α) (p : Nat) (s : List (SObs α)) :
+    Option (Mat α) :=
+  match e with
+  | .measurements => covFromMeasurements m (view d s) dof p
+  | .unbalanced => some (covFromUnbalanced m (view d s) dof p)
+
+/-- the estimates a session returns, in call order -/
+def runSession (p : Nat) : List (Step α) → List (SObs α) → List (Option (Mat α))
+  | [], _ => []
+  | .est e m d dof :: rest, s => estimateOn e m d dof p s :: runSession p rest s
+  | .sort d :: rest, s => runSession p rest (sortBy d s)
+  | .setDesc d i v :: rest, s => runSession p rest (storeDesc d i v s)
+  | .setVal i j x :: rest, s => runSession p rest (storeVal i j x s)
+
+end session
+
 /-! ### Axis bookkeeping of the measurement tensor
 
   `get_measurements_tensor` stacks the per-condition blocks (repetition × channel) along
